@@ -257,7 +257,7 @@ func runC12(c *Ctx) {
 				c.check(len(viol) == 0, "min-raise-monotone", fnKey(fn), p.FnPos(fn), "a new minimum raise is recorded only when the increment is at least the old minimum, and it is the lift of the wager to match", "an action records a wrong minimum raise: the next undersized raise would be carried out", viol...)
 			}
 		}
-		c.floor("min-raise-monotone", "paths recording a minimum raise", nPRS, 3)
+		c.floor("min-raise-monotone", "paths recording a minimum raise", nPRS, 2)
 	}
 
 	// ---- wager-monotone: every store to CurrentWager other than := 0
@@ -563,7 +563,7 @@ func runRaiseTable(c *Ctx, fn, mover *ssa.Function, byConst map[string]*ssa.Func
 		c.undecided("raise-table", fnKey(fn)+"#extraction", p.FnPos(fn), "table self-check failed: "+selfErr)
 		return
 	}
-	c.floor("raise-table", "rows", len(paths), 6)
+	c.floor("raise-table", "rows", len(paths), 4)
 	c.check(len(viol) == 0, "raise-table", fnKey(fn)+"#reference", p.FnPos(fn),
 		fmt.Sprintf("%d rows agree with the minimum-raise rule on %d states", len(paths), n), "Raise does not follow the minimum-raise rule", viol...)
 }
@@ -706,7 +706,7 @@ func checkAmountNonNeg(c *Ctx, ea *engineAnchors) {
 			fmt.Sprintf("the amount handed to the chip mover is >= 0 on all %d paying paths for every argument (%d states)", len(pays), total),
 			"a caller-supplied amount can make the chip mover pay a negative amount (wager, stack and round pot go out of bounds)", viol...)
 	}
-	c.floor("amount-nonneg", "paying actions", nAmt, 4)
+	c.floor("amount-nonneg", "paying actions", nAmt, 3)
 
 }
 
